@@ -246,3 +246,11 @@ def run(ctx):
     # R5.8: on every row of the applicator tables all sub-validation errors are forwarded once each, one own error per violation
     from .applic import rule_applicators
     rule_applicators(ctx, "R5.8", "errors")
+    # R5.9: the errors of a schema object are computed from the object in hand on every call: the validator keeps no table of a
+    # schema's keywords from an earlier call (a keyword added or removed since then would be missed or still reported)
+    from .c07 import rule_validator_state
+    rule_validator_state(ctx, "R5.9")
+    # R5.10: a subschema is applied whenever it is present: `false` and `{}` are falsy, so a keyword that tests a subschema for
+    # truthiness silently drops the errors of the boolean schema false
+    from .c01 import rule_schema_not_a_condition
+    rule_schema_not_a_condition(ctx, "R5.10")
